@@ -110,7 +110,7 @@ func e3world(engine string, bufSize int, sizes []int) {
 						report.Current(map[string]any{"part": "E3", "engine": "stack", "cell": cell})
 						be.Reset()
 						be.SetFixed(stack.Behaviour{Kind: "respond", Status: status, Framing: framing, Body: body, Cut: -1, After: "complete", Headers: [][2]string{{"Content-Type", ct}}})
-						r := stack.Do(o.Addr, &stack.Req{Method: "POST", Target: rt.target, Body: []byte(rt.body), Timeout: 8 * time.Second,
+						r := stack.Do(o.Addr, &stack.Req{Method: "POST", Target: rt.target, Body: []byte(rt.body), Timeout: 15 * time.Second,
 							Headers: [][2]string{{"Content-Type", "application/json"}, {"anthropic-version", "2023-06-01"}}})
 						res.Add("evaluations", 1)
 						res.SetAdd("distinct_nontrivial", fmt.Sprintf("E3|%s|%d|%s|%s|%s|%d|%d|%d", engine, bufSize, rt.name, kind, framing, status, n, r.Status))
@@ -118,7 +118,7 @@ func e3world(engine string, bufSize int, sizes []int) {
 						wit := map[string]any{"part": "E3", "route": rt.name, "engine": engine}
 						switch {
 						case r.TimedOut:
-							violate("completion-hangs", wit, cell+"\nno end of the exchange within 8 s: "+r.String(), rp)
+							violate("completion-hangs", wit, cell+"\nno end of the exchange within 15 s: "+r.String(), rp)
 						case r.ConnErr != "" || r.Status == 0:
 							violate("exchange-aborted", wit, cell+"\nthe client got no HTTP response (a panic in the request goroutine ends the exchange like this): "+r.String(), rp)
 						case rt.relay && r.Status == status && r.BodyErr == "" && !bytes.Equal(r.Body, body):
